@@ -157,7 +157,7 @@ def _model_case(case):
                    shift=al.shift)
     # landscape maximum at the reported displacement (displaced copies only: unique interior peak)
     # (circular PCC landscapes cannot represent shifts beyond box/2: boxes below 2*(M+2)+2 are skipped)
-    if p["pair"] == "displaced" and p["mask"] == "none" and min(shape) >= 8:
+    if p["pair"] == "displaced" and p["mask"] == "none" and min(shape) >= 6:
         M = (2.0, 2.0, 2.0) if not small else (1.0, 1.0, 1.0)
         # ZNCC landscapes do not depend on a constant background or a positive gain of the sub-volume
         bg = float(rng.choice([5.0, 40.0])) * float(tmpl.max())
